@@ -180,6 +180,8 @@ def install(world):
         if not a:
             return SetVal(frozen=frozen)
         v = a[0]
+        if isinstance(v, BI.Generator):
+            v = v.items(ex)
         if is_zset(v):
             return v
         if isinstance(v, QVars):
@@ -600,6 +602,9 @@ def install(world):
         meth(tn, "copy", lambda ex, a, kw: a[0].copy() if not is_zset(a[0]) else a[0])
 
         def s_update(ex, a, kw):
+            if is_zset(a[1]) and isinstance(a[0], SetVal):
+                a[0].zextra.append(a[1])
+                return
             for x in BI.iterate(W, ex, a[1]):
                 BI.set_add(W, ex, a[0], x)
         meth(tn, "update", s_update)
@@ -763,6 +768,19 @@ def install(world):
     tmeth("elem_type", t_none_guard("elem_type", Ty.is_ArrT, Ty.aelem), prop=True)
     tmeth("return_type", t_none_guard("return_type", Ty.is_FunT, lambda t: S.fun_ret(Ty.fid(t))), prop=True)
 
+    def t_arity(ex, a, kw):
+        t = a[0]
+        ex.assume(S.cust_arity(Ty.cid(t)) >= 0)
+        ex.assume(S.fun_arity(Ty.fid(t)) >= 1)
+        return S.ty_arity(t)
+    tmeth("arity", t_arity, prop=True)
+
+    class TyArgs:
+        def __init__(self, t):
+            self.t = t
+    W.TyArgs = TyArgs
+    tmeth("args", lambda ex, a, kw: TyArgs(a[0]), prop=True)
+
     class ParamTypes:
         def __init__(self, t):
             self.t = t
@@ -778,6 +796,11 @@ def install(world):
     W.config["length"] = cfg_length
 
     def cfg_iterate(ex, v):
+        if isinstance(v, TyArgs):
+            ex.assume(S.cust_arity(Ty.cid(v.t)) >= 0)
+            ex.assume(S.fun_arity(Ty.fid(v.t)) >= 1)
+            n = BI.concretize_int(W, ex, S.ty_arity(v.t), 0, 3, "type-arity-bound")
+            return [S.ty_arg(v.t, i) for i in range(n)]
         if isinstance(v, ParamTypes):
             f = Ty.fid(v.t)
             n = BI.concretize_int(W, ex, S.fun_arity(f), 1, ex.max_arity, "fun-arity-bound")
